@@ -53,6 +53,16 @@ SY_CLASS = {"SECTION": "SECTION", "ENDSECTION": "ENDSECTION", "PUBLIC": "PUBLIC"
 MC_CLASS = {"MACRO": "MACRO", "IRP": "IRP", "IRPN": "IRPN", "IRPC": "IRPC", "REPT": "REPT", "WHILE": "WHILE",
             "ENDM": "ENDM", "ENDR": "ENDM", "EXITM": "EXITM", "SHIFT": "SHIFT", "SHFT": "SHIFT", "INCLUDE": "INCLUDE"}
 
+LIST_OPS = {"NEWPAGE", "PAGE", "TITLE", "PRTINIT", "PRTEXIT", "PAGESIZE"}      # controls of the listing (asmallg.c)
+_LIT = __import__("re").compile(r"^(0|[1-9][0-9]{0,4})$")
+
+
+def _lit(a, ok=True):
+    """a literal decimal number below 65536 (what EXPECT / ALIGN take), or -1: not known to the tokeniser"""
+    t = a.strip()
+    return int(t) if ok and _LIT.match(t) and int(t) < 65536 else -1
+
+
 LABEL_CONSUMERS = {"=", ":=", "MACRO", "FUNCTION", "LABEL", "SET", "STRUCT", "STRUC", "EQU", "ENDSTRUCT", "ENDS",
                    "ENDSTRUC", "ENDUNION", "EVAL", "UNION", "REG", "BIT", "SFR", "PORT", "DEFBIT", "YSFR", "XSFR",
                    "SFRB", "RIV", "LIV", "DEFBITFIELD", "DEFBITB", "DBIT", "SFRBIT"}      # (coverage counting only)
@@ -63,7 +73,10 @@ CLAIMS = ["SkippedIsInert", "RecordedIsInert", "IfFamilyIsAddressNeutral", "Erro
           "DeliveredAsRecorded", "TagDepthIsMachineDepth", "LabelValueIsExec", "LabelEntersTable",
           "RedefinitionIsReported", "DefKindMatchesStatement", "ErrorDefinesNothing", "ConstantIsStable",
           "SymbolTableFollowsAdder", "RefReadsTable", "SectionStackFollowsManual", "EnumAssignsSequentialValues",
-          "StackIsLifo", "FinalTableIsListed", "LastPassImageEqualsFile", "ErrsDeltaIsDiagCount", "OpenConstructsAreReported"]
+          "StackIsLifo", "FinalTableIsListed", "LastPassImageEqualsFile", "ErrsDeltaIsDiagCount", "OpenConstructsAreReported",
+          "ExpectListIsHistory", "EndExpectReportsExactlyUnmet", "ExpectDoesNotNest", "ExpectEndsWithPass",
+          "IfdefReadsTable", "PhaseErrorForcesRepass", "CodeLenIsEmitted", "EmptyLineIsInert", "ListingControlIsInert",
+          "AlignReachesBoundary", "EndStopsAssembly", "EndSetsEntry"]
 # what property C12 (selection) or the manual state definitely; the others are finer predictions of the model
 DEFINITE = {"SkippedIsInert": "a statement in a branch that is not selected had an effect",     # (code, address, message,
             # symbol definition or modification, section stack, PUSHV stack)
@@ -218,6 +231,7 @@ def regroup(trace, rc, p, lst=None):
     casesens = False
     last_stmt = None
     ifpre, recpre, sedpre = True, False, 0
+    radix10 = True                         # no RADIX statement so far: a literal number is decimal
 
     def fold(x):
         return x if casesens else x.upper()
@@ -238,6 +252,7 @@ def regroup(trace, rc, p, lst=None):
                        "svd": e["svd"], "std": e["std"], "sed": e["sed"]})
             between = True
             sy = []
+            radix10 = True
         elif k == "pass_begin":
             cur_pass = e["pass"]
             if e["pc"] >= LIM:
@@ -305,6 +320,34 @@ def regroup(trace, rc, p, lst=None):
             args = [a["a"] for a in (split or {}).get("args", [])]
             lab = (split or {}).get("lab", "")
             sc, sa = ("OTHER", []) if skip else _sy_class(op, args, sedpre, e["sed"], fold)
+            # statement kind for the EXPECT list / IFDEF / the named actions of single statements (tokenising only:
+            # a literal decimal number is read, a name is case-folded; nothing is evaluated)
+            gk, ga = "OTHER", []
+            if op in ("IFDEF", "IFNDEF"):
+                gk = op
+                if e["argc"] == 1 and len(args) == 1 and _plain(args[0].strip()):
+                    ga = [fold(args[0].strip()), args[0].strip().upper()]
+            elif skip:
+                pass
+            elif op == "EXPECT":
+                gk = "EXPECT"
+                ga = [_lit(a, radix10) for a in args] if len(args) == e["argc"] else [-1] * e["argc"]
+            elif op == "ENDEXPECT":
+                gk = "ENDEXPECT"
+            elif op == "" and e["argc"] == 0:           # (uPD77230 writes instructions without a mnemonic)
+                gk = "EMPTY"
+            elif op in LIST_OPS:
+                gk = "LIST"
+            elif op == "ALIGN":
+                gk = "ALIGN"
+                ga = [_lit(args[0], radix10)] if args and _lit(args[0], radix10) > 0 else []
+            elif op == "END":
+                gk = "END"
+            elif op == "FUNCTION":
+                gk = "FUNCTION"
+                ga = [fold(lab)] if _plain(lab) else []
+            elif op == "RADIX":
+                radix10 = False
             s = {"a": "S", "pre": pre, "nl": here["nl"], "tx": here["tx"], "dp": here["dp"], "em": here["em"],
                  "op": op, "argc": e["argc"], "lab": bool(e["lab"]), "wm": bool(e["wasmac"]), "ca": ca, "cb": cb,
                  "mc": mc, "nm": _macro_name(here["_t"]) if mc == "MACRO" else "",
@@ -313,7 +356,7 @@ def regroup(trace, rc, p, lst=None):
                  "errs": e["errs"], "seg": e["seg"], "pc": e["pc"], "ph": e["ph"], "phd": e["phd"], "svd": e["svd"],
                  "std": e["std"], "sed": e["sed"], "len": e["len"], "cpu": e["cpu"], "dg": dg, "ch": chunks,
                  "sy": sy, "psy": psy, "lbn": fold(lab) if _plain(lab) else "",
-                 "q": "[" in (split or {}).get("raw", ""), "sc": sc, "sa": sa}
+                 "q": "[" in (split or {}).get("raw", ""), "sc": sc, "sa": sa, "gk": gk, "ga": ga}
             ev.append(s)
             # coverage classes (counting only): which machine has a named action for this statement
             named = []
@@ -353,9 +396,27 @@ def regroup(trace, rc, p, lst=None):
                 named.append("SY:label-moved")
             if not ifpre and not e["ifasm"] and ca == "OTHER" and not recpre:
                 named.append("CA:skipped")
+            if gk in ("EXPECT", "ENDEXPECT"):
+                named.append("DG:expect")
+            elif gk == "EMPTY":
+                named.append("ST:empty-line")
+            elif gk == "LIST":
+                named.append("ST:listing-control")
+            elif gk == "ALIGN" and ga:
+                named.append("AB:ALIGN")
+            elif gk == "END":
+                named.append("ST:END")
+            elif gk == "FUNCTION" and ga:
+                named.append("SY:function")
+            elif gk in ("IFDEF", "IFNDEF") and ga and ca == "IF" and ifpre:
+                named.append("SY:ifdef")
+            if any(c["k"] in "ER" for c in chunks) and not skip:
+                named.append("AB:code-length")          # CodeLenIsEmitted: the counter moves by what was handed out
             for n in named:
                 count(n)
             count("named" if named else "generic")
+            if not named:                                # histogram of what falls to the generic rule (counting only)
+                count("generic-op:" + ("(code)" if e["len"] > 0 and chunks else op))
             for m in sorted(set(n.split(":")[0] for n in named)):
                 count("machine:" + m)
             last_stmt = e
@@ -388,7 +449,7 @@ def regroup(trace, rc, p, lst=None):
     return ev, cls
 
 
-_NEED_SPLIT_OPS = set(SY_CLASS) | {"MACRO", "IRP", "IRPN", "IRPC", "REPT", "WHILE"}
+_NEED_SPLIT_OPS = set(SY_CLASS) | {"MACRO", "IRP", "IRPN", "IRPC", "REPT", "WHILE", "EXPECT", "ALIGN", "IFDEF", "IFNDEF"}
 _OP_RE = __import__("re").compile(rb'"lab":"((?:[^"\\]|\\.)*)","op":"((?:[^"\\]|\\.)*)"')
 
 
